@@ -6,6 +6,7 @@ import (
 	"fmt"
 	"hash/crc32"
 	"io"
+	"os"
 	"strings"
 
 	"github.com/biogo/hts/bam"
@@ -53,11 +54,19 @@ func (c11) Rule() string {
 	return "targets: bgzf, bam, sam (text: reader, record/aux/CIGAR/header parsers), bai, csi, tabix, fai, fasta (NewIndex + File.SeqRange), cram (definition, containers, blocks, Value); a valid encoding (independent encoders for BGZF/BAM/CRAM, the library's own writers for SAM text and the indexes) is stored on a simulated file, hit by 1..4 stored-state faults {bit flip, byte substitution, truncation, zeroed 512-byte sector, misdirected sector, duplicated tail} and consumed as a stream with short reads and optionally a read error, BGZF/BAM with rd>1 under tape-chosen schedules. Oracle: no panic in any goroutine, no deadlock/livelock, no fatal runtime error or 30 s stall of the worker; every value returned without error is passed to the library's accessors, formatters, writers and index builders, which must not panic either. Arbitrary byte strings far from a valid encoding are NOT explored. non-trivial: the decoder read at least one faulted byte and the outcome differs from the fault-free outcome; distinct = (case, schedule signature)"
 }
 
-var c11Targets = []string{"bgzf", "bam", "bam", "sam", "sam", "bai", "csi", "tabix", "fai", "fasta", "cram"}
+// "-inner" targets apply the faults to the payload BEFORE it is wrapped in a
+// checksummed container (BGZF members, CRAM blocks): corruption that happened
+// upstream of the checksum, which is the only way a fault reaches the BAM
+// record parser or the CRAM header-block parser at all.
+var c11Targets = []string{"bgzf", "bam", "bam-inner", "bam-inner", "sam", "sam", "bai", "csi", "tabix", "fai", "fasta", "cram", "cram-inner"}
 
 func (c11) Gen(t *Tape, tier string, run int) interface{} {
-	c := &c11Case{Target: c11Targets[t.Draw("work", len(c11Targets))], GenSeed: uint32(t.Draw("work", 1<<30)), RD: t.Pick("work", 1, 2, 4), Chunk: t.Pick("work", 0, 0, 2, 1), Kind: ReaderKinds[t.Draw("work", 2)]}
-	kinds := []string{"bitflip", "bitflip", "bitflip", "subst", "subst", "truncate", "zero-sector", "misdirect", "dup-tail"}
+	targets := c11Targets
+	if only := os.Getenv("HTSV_C11_ONLY"); only != "" {
+		targets = strings.Split(only, ",") // triage aid
+	}
+	c := &c11Case{Target: targets[t.Draw("work", len(targets))], GenSeed: uint32(t.Draw("work", 1<<30)), RD: t.Pick("work", 1, 2, 4), Chunk: t.Pick("work", 0, 0, 2, 1), Kind: ReaderKinds[t.Draw("work", 2)]}
+	kinds := []string{"bitflip", "bitflip", "bitflip", "subst", "subst", "truncate", "zero-sector", "misdirect", "dup-tail", "drop-bytes", "dup-bytes", "set-delim", "ins-delim", "rec-trim", "rec-trim"}
 	n := 1 + t.Draw("work", 4)
 	if t.Chance("work", 1, 2) {
 		n = 1
@@ -96,6 +105,31 @@ func applyFaults(img []byte, fs []StoreFault) ([]byte, []bool) {
 			for i := 0; i < 512 && s+i < len(out) && d+i < len(out); i++ {
 				out[d+i] = out[s+i]
 			}
+		case "drop-bytes": // bytes lost in transport
+			n := 1 + f.B%4
+			if a+n > len(out) {
+				n = len(out) - a
+			}
+			out = append(out[:a], out[a+n:]...)
+		case "dup-bytes": // bytes delivered twice
+			n := 1 + f.B%4
+			if a+n > len(out) {
+				n = len(out) - a
+			}
+			dup := append([]byte(nil), out[a:a+n]...)
+			out = append(out[:a+n], append(dup, out[a+n:]...)...)
+		case "set-delim": // a byte turned into one of the formats' delimiters
+			out[a] = []byte{'\t', '\n', ':', 0, ',', '@', '*'}[f.B%7]
+		case "ins-delim": // a delimiter byte inserted
+			d := []byte{'\t', '\n', ':', 0, ',', '@', '*'}[f.B%7]
+			out = append(out[:a], append([]byte{d}, out[a:]...)...)
+		case "rec-trim":
+			// BAM streams only: see trimRecord; elsewhere it cuts 1..8 bytes off the end
+			n := 1 + f.B%8
+			if n > len(out) {
+				n = len(out)
+			}
+			out = out[:len(out)-n]
 		case "dup-tail":
 			n := 1 + f.B%512
 			if n > len(out) {
@@ -428,7 +462,11 @@ func exerciseHeader(h *sam.Header) {
 
 func decode(x *Exec, c *c11Case, file *File) (outcome string) {
 	rdr := file.As(c.Kind)
-	switch c.Target {
+	target := c.Target
+	if i := strings.Index(target, "-inner"); i > 0 {
+		target = target[:i]
+	}
+	switch target {
 	case "bgzf":
 		bgzf.HasEOF(file.RA())
 		r, err := bgzf.NewReader(rdr, c.RD)
@@ -618,11 +656,100 @@ func errKind(err error) string {
 	return "error"
 }
 
+// wrapBAM puts an (un)corrupted BAM stream into valid BGZF members.
+func wrapBAM(stream []byte, seed uint32) []byte {
+	t := NewTape(uint64(seed), "C11-wrap", 0)
+	var img []byte
+	for len(stream) > 0 {
+		n := 1 + t.Draw("work", 1500)
+		if n > len(stream) {
+			n = len(stream)
+		}
+		img = append(img, EncodeMember(stream[:n], MemberOpts{Level: 1, OS: 0xff})...)
+		stream = stream[n:]
+	}
+	return append(img, SpecEOF...)
+}
+
+// bamStream builds a BAM stream; faults of kind rec-trim are applied
+// structurally (a length-field edit): record A%n loses its last 1..8 bytes and
+// its block_size is reduced accordingly, so the stream stays well framed but
+// the record's last variable-length field is cut short.
+func bamStream(seed uint32, faults []StoreFault) []byte {
+	t := NewTape(uint64(seed), "C11-gen-bam-inner", 0)
+	h := c11Header(t)
+	stream := h.EncodeBAMHeader()
+	recs := c11Records(t, h, 1+t.Draw("work", 6))
+	for i, r := range recs {
+		enc := r.EncodeBAM()
+		for _, f := range faults {
+			if f.Kind == "rec-trim" && f.A%len(recs) == i {
+				k := 1 + f.B%8
+				if k < len(enc)-4 {
+					enc = enc[:len(enc)-k]
+					binary.LittleEndian.PutUint32(enc, uint32(len(enc)-4))
+				}
+			}
+		}
+		stream = append(stream, enc...)
+	}
+	return stream
+}
+
+// cramInner builds a CRAM file whose header block content (and the
+// following blocks) carry the faults under correct checksums.
+func cramInner(seed uint32, faults []StoreFault) []byte {
+	t := NewTape(uint64(seed), "C11-gen-cram-inner", 0)
+	var img []byte
+	img = append(img, 'C', 'R', 'A', 'M', 3, 0)
+	img = append(img, make([]byte, 20)...)
+	ch := c11Header(t)
+	text := ch.Text()
+	hd := binary.LittleEndian.AppendUint32(nil, uint32(len(text)))
+	hd = append(hd, text...)
+	hd, _ = applyFaults(hd, faults)
+	method := byte(t.Pick("work", 0, 0, 0, 1, 2, 3, 4))
+	blk := cramBlock(method, 0, 0, hd)
+	img = append(img, cramContainer(0, 0, 0, 0, [][]byte{blk})...)
+	for i, n := 0, t.Draw("work", 3); i < n; i++ {
+		data, _ := applyFaults(make([]byte, 4+t.Draw("work", 60)), faults)
+		img = append(img, cramContainer(int32(t.Draw("work", 3))-1, int32(t.Draw("work", 1000)), 100, 5,
+			[][]byte{cramBlock(byte(t.Pick("work", 0, 1)), byte(t.Pick("work", 0, 1, 2, 4, 5)), int32(i), data)})...)
+	}
+	return img
+}
+
 func (c11) Exec(x *Exec, ci interface{}) *Verdict {
 	c := ci.(*c11Case)
 	vd := &Verdict{}
-	valid := genValid(c.Target, c.GenSeed)
-	img, diff := applyFaults(valid, c.Faults)
+	var valid, img []byte
+	var diff []bool
+	switch c.Target {
+	case "bam-inner":
+		valid = wrapBAM(bamStream(c.GenSeed, nil), c.GenSeed)
+		var rest []StoreFault
+		for _, f := range c.Faults {
+			if f.Kind != "rec-trim" {
+				rest = append(rest, f)
+			}
+		}
+		bad, _ := applyFaults(bamStream(c.GenSeed, c.Faults), rest)
+		img = wrapBAM(bad, c.GenSeed)
+		diff = make([]bool, len(img))
+		for i := range diff {
+			diff[i] = true
+		}
+	case "cram-inner":
+		valid = cramInner(c.GenSeed, nil)
+		img = cramInner(c.GenSeed, c.Faults)
+		diff = make([]bool, len(img))
+		for i := range diff {
+			diff[i] = true
+		}
+	default:
+		valid = genValid(c.Target, c.GenSeed)
+		img, diff = applyFaults(valid, c.Faults)
+	}
 	for _, f := range c.Faults {
 		x.Fault("stored:" + f.Kind)
 	}
